@@ -445,7 +445,8 @@ def scenarios(tier, seed):
         P(("tanh",), ["add", ["mul", "a", "b"], "b"]), ["div", ["add", "a", "b"], ["addc", ["mul", "b", "b"]]],
         ["sub", ["diag", "a"], ["scale", P(("sigmoid",), "b")]], ["mul", ["conj", "a"], "b"],
     ]
-    heavy = (["vdot", ["mul", "a", "b"], P(("tanh",), "a")], P(("tanh",), ["add", ["mul", "a", "b"], "b"]))
+    heavy = (["vdot", ["mul", "a", "b"], P(("tanh",), "a")], P(("tanh",), ["add", ["mul", "a", "b"], "b"]),
+             ["div", ["add", "a", "b"], ["addc", ["mul", "b", "b"]]])
     for t in multi:
         for cplx in (False, True):
             if cplx and t in heavy and tier == "quick":
